@@ -44,6 +44,8 @@ func runC01(c *Ctx) {
 	c.Rule("C01.R9", "HTTP/2 to HTTP/2: the outgoing URL is the received one (or a copy of it with single fields changed), never composed anew", 1)
 	defer c01H2URLFromReceived(c)
 	defer c01RawViewsConsistent(c)
+	c.Rule("C01.R12", "HTTP/2 header fields stay faithful only while the HPACK tables of both ends agree: a block is encoded and written under one hold of the connection mutex", 4)
+	defer c18EncodeAndWriteAtomic(c, "C01.R12")
 	c.Rule("C01.R11", "tars: the reader starts behind the length prefix; field 5 classifies a package in every int width", 4)
 	defer c01TarsFraming(c)
 	c.Rule("C01.R10", "cloning an HTTP/2 header map keeps every value of every name", 1)
